@@ -26,12 +26,13 @@ void CDNS::Timestamp::add_time_offset(int64_t offset, uint64_t ticks_per_second)
     if (ticks_per_second == 0)
         throw std::runtime_error("Ticks per second resolution is zero!");
 
-    int64_t ticks = (m_secs * ticks_per_second) + m_ticks;
+    uint64_t ticks = (m_secs * ticks_per_second) + m_ticks;
 
-    if (-1 * offset > ticks)
+    // |offset| computed in unsigned arithmetic: well defined for every int64_t, including INT64_MIN
+    if (offset < 0 && (0 - static_cast<uint64_t>(offset)) > ticks)
         throw std::runtime_error("Adding offset to Timestamp would create invalid Timestamp!");
 
-    ticks += offset;
+    ticks += static_cast<uint64_t>(offset);
     m_secs = ticks / ticks_per_second;
     m_ticks = ticks % ticks_per_second;
 }
